@@ -1575,6 +1575,15 @@ class WriteTool(BaseTool):
                         # Best-effort: if repair fails, preserve original validation_errors
                         pass
 
+                # Issue #190: findings of severity "warning" (W001 from UNKNOWN_FIELDS::WARN) are
+                # advisory - they are reported separately and never make the document INVALID
+                advisory_findings = [err for err in validation_errors if getattr(err, "severity", "error") == "warning"]
+                validation_errors = [err for err in validation_errors if getattr(err, "severity", "error") != "warning"]
+                if advisory_findings:
+                    result["validation_warnings"] = [
+                        {"code": err.code, "message": err.message, "field": err.field_path} for err in advisory_findings
+                    ]
+
                 if validation_errors:
                     result["validation_status"] = "INVALID"
                     result["validation_errors"] = [
